@@ -248,6 +248,26 @@ GROUPS = {
             ("view_c10", ["gViewPre", "gViewBody", "gViewPost", "gView"], "ViewProps gView", "exact viewProps_of_refines view_refines"),
         ],
     },
+    "ssinit": {
+        "import": "Haiway.Bridge.ScopeStateInit", "open": "Haiway.MiniPy Haiway.Bridge.ScopeStateInit Haiway.Bridge.ScopeState",
+        "defs": {
+            name: Target("src/haiway/context/state.py", "ScopeState", "__init__", ["state"], _SF, {},
+                         ext_functions={"type": (125, ["@0"]), "freeze": (126, ["@0"])}, part="for." + part)
+            for name, part in (("gSSPre", "pre"), ("gSSBody", "body"), ("gSSPost", "post"), ("gSSInit", "whole"))
+        },
+        "obligations": [
+            ("ssinit_pre", ["gSSPre"], "PreOK gSSPre {gSSPre.__dc0}", "intro st\n  unfold gSSPre\n  ssinit_eval"),
+            ("ssinit_step", ["gSSBody"], "StepOK gSSBody {gSSBody.__dc0} {gSSBody.$loopvar}",
+             "intro d n st hd hn\n  unfold gSSBody\n  ssinit_eval"),
+            ("ssinit_post", ["gSSPost"], "PostOK gSSPost {gSSPost.__dc0}", "intro v st hv\n  unfold gSSPost\n  ssinit_eval"),
+            ("ssinit_builds", ["gSSPre", "gSSBody", "gSSPost", "gSSInit"], "InitBuilds gSSInit",
+             "exact init_of_parts (pre := gSSPre) (body := gSSBody) (post := gSSPost) rfl ssinit_pre\n"
+             "    (by intro st; ssinit_eval) ssinit_step ssinit_post (by decide)"),
+            # the step the scope-state end-to-end chain assumed (`mk`), now of the regenerated constructor
+            ("ssinit_closes_chain", ["gSSPre", "gSSBody", "gSSPost", "gSSInit"], "ClosesChain gSSInit",
+             "exact closesChain_of_builds ssinit_builds"),
+        ],
+    },
     "spawn": {
         "import": "Haiway.Bridge.Spawn", "open": "Haiway.MiniPy Haiway.Bridge.Spawn",
         "defs": {
